@@ -106,8 +106,10 @@ RpcReplyShellFailsX(p, o, r, ro, chkxid) ==
      THEN (IF RmLast(r) /\ RmLen(r) = P32(Len(r) - 4) THEN {} ELSE { "rpc-record-mark" })
      ELSE {})
     \cup (IF ~chkxid \/ RU32(r, ro) = RU32(p, o) THEN {} ELSE { "rpc-xid" })
-    \cup (IF RU32(r, ro + 4) = << 0, 1 >> /\ RU32(r, ro + 8) = << 0, 0 >> THEN {} ELSE { "rpc-accepted-reply" })
-    \cup (IF RU32(r, ro + 12) = << 0, 0 >> /\ RU32(r, ro + 16) = << 0, 0 >> THEN {} ELSE { "rpc-null-verifier" })
+    \cup (IF RU32(r, ro + 4) = << 0, 1 >> /\ RU32(r, ro + 8) = << 0, 1 >>
+          THEN {}      \* MSG_DENIED (RPC_MISMATCH, AUTH_ERROR) to a call the statements do not describe
+          ELSE (IF RU32(r, ro + 4) = << 0, 1 >> /\ RU32(r, ro + 8) = << 0, 0 >> THEN {} ELSE { "rpc-accepted-reply" })
+               \cup (IF RU32(r, ro + 12) = << 0, 0 >> /\ RU32(r, ro + 16) = << 0, 0 >> THEN {} ELSE { "rpc-null-verifier" }))
     \cup (IF (Len(r) - ro) % 4 = 0 THEN {} ELSE { "rpc-xdr-alignment" })
 
 RpcReplyShellFails(p, o, r, ro) == RpcReplyShellFailsX(p, o, r, ro, TRUE)
